@@ -163,6 +163,18 @@ def pyDictSet {κ ν} [BEq κ] : Dict κ ν → κ → ν → Dict κ ν
 /-- `dict(pairs)` / a dict display / a dict comprehension: later pairs overwrite, first position kept. -/
 def pyDictOfList {κ ν} [BEq κ] (ps : List (κ × ν)) : Dict κ ν := ps.foldl (fun d p => pyDictSet d p.1 p.2) []
 
+/-- `d[k].add(e)` / `d[k].append(e)`: the value under `k` replaced by `f` of it; `KeyError` when `k` is missing. -/
+def pyDictModify {κ ν} [BEq κ] : Dict κ ν → κ → (ν → ν) → Except PyErr (Dict κ ν)
+  | [], _, _ => .error .KeyError
+  | (k', v') :: r, k, f =>
+    if k' == k then .ok ((k', f v') :: r)
+    else match pyDictModify r k f with
+      | .ok r' => .ok ((k', v') :: r')
+      | .error e => .error e
+
+/-- `xs.append(e)` as a function -/
+def pyListAppend {α} (xs : List α) (x : α) : List α := xs ++ [x]
+
 /-- `d.setdefault(k, v)` as a statement (the value is discarded). -/
 def pyDictSetDefault {κ ν} [BEq κ] (d : Dict κ ν) (k : κ) (v : ν) : Dict κ ν :=
   if pyDictContains d k then d else d ++ [(k, v)]
